@@ -345,6 +345,9 @@ func (rn *runner) depthLadder(e vrt.Entry, k2 int) {
 		args[0] = n
 		for k := 1; k < len(args); k++ {
 			args[k] = k2
+			if k2 < 0 {
+				args[k] = n // the period of the yields is the trip count: ONE quiet stretch of n-1 iterations
+			}
 		}
 		sc := &Scenario{Iters: []IterSpec{{e.Name, args}}, Threads: [][]Op{{{K: ONew, H: 0}}}, PanicAt: -1}
 		for k := 0; k < 6; k++ {
